@@ -1,5 +1,253 @@
-import U3.Model.Wire
+import U3.Lemmas.Wire
+/-!
+# C11 — request bodies are framed exactly and re-sent identically
+
+Framing theorems are about `U3.Wire.framing / sendChunks / bodyPhase` (transcription of
+`HTTPConnection.request`) against the independent strict decoder `dechunk` / `ofHex`; the re-send
+theorems about `U3.Wire.sendHistory` (how `urlopen` threads `body_pos`).
+-/
 namespace U3.Props
 open U3 U3.Wire
-theorem C11_placeholder : (1:Nat) = 1 := rfl
+
+def c11cfg : Cfg := ⟨lit "h", 80, 80, 4, .ok [], .error .unicodeError⟩
+
+/-- the `%x` chunk-size line is read back exactly by a strict hex reader, for every length -/
+theorem C11_hex_roundtrip (n : Nat) : ofHex (toHex n) = some n := ofHex_toHex n
+
+/-- chunk framing round trip: non-empty pieces framed as `hex CRLF data CRLF … 0 CRLF CRLF` are
+decoded by the strict chunked decoder to exactly their concatenation (any number / size of pieces) -/
+theorem C11_chunk_roundtrip (ds : List Bytes) (hne : ∀ d ∈ ds, d ≠ []) :
+    dechunk ((frameData ds ++ lastChunk).length + 1) (frameData ds ++ lastChunk) = some ds.flatten := by
+  apply dechunk_frameData ds hne
+  have := length_le_frameData ds
+  simp only [List.length_append]; omega
+
+example : dechunk 100 (frameData [[1, 2], [3]] ++ lastChunk) = some [1, 2, 3] := by decide
+
+/-- a chunk whose `len()` agrees with its byte length (everything except buffers with wide items) -/
+def wellSized : Chunk → Prop
+  | .buf _ k => k = 1
+  | _ => True
+
+/-
+Full statement: `deframe (frame b) = payload b` for every body.  It does NOT hold for buffers whose
+items are wider than a byte when chunked (`C11_wide_buffer_witness`): the size line counts items.
+Proved: for well-sized pieces, what the body loop writes in chunked mode is the chunk framing of the
+non-empty encoded pieces — which `C11_chunk_roundtrip` decodes to the payload — and in
+Content-Length mode it is the payload itself.
+-/
+theorem C11_payload_roundtrip_partial (cs : List Chunk) (hw : ∀ c ∈ cs, wellSized c) (chunked : Bool)
+    (hok : (sendChunks chunked cs).err = none) :
+    ∃ ds : List Bytes, (∀ d ∈ ds, d ≠ []) ∧ chunksPayload cs = some ds.flatten ∧
+      (sendChunks chunked cs).written = if chunked then frameData ds else ds.flatten := by
+  induction cs with
+  | nil => exact ⟨[], by simp, by simp [chunksPayload], by cases chunked <;> simp [sendChunks, frameData]⟩
+  | cons c t ih =>
+    have hwt : ∀ c ∈ t, wellSized c := fun x hx => hw x (by simp [hx])
+    have hwc := hw c (by simp)
+    simp only [sendChunks] at hok ⊢
+    split at hok
+    · -- empty piece: skipped
+      rename_i hlen
+      obtain ⟨ds, h1, h2, h3⟩ := ih hwt hok
+      refine ⟨ds, h1, ?_, by simpa [hlen] using h3⟩
+      have hb : chunkBytes c = some [] := by
+        cases c with
+        | bytes b => simp [Chunk.len] at hlen; simp [chunkBytes, hlen]
+        | str s => simp [Chunk.len] at hlen; simp [chunkBytes, hlen, utf8SP]
+        | buf b k =>
+          simp only [wellSized] at hwc; subst hwc
+          simp [Chunk.len] at hlen; simp [chunkBytes, hlen]
+      simp [chunksPayload, hb, h2]
+    · rename_i hlen
+      split at hok
+      · simp at hok
+      · rename_i d hd
+        simp only at hok
+        obtain ⟨ds, h1, h2, h3⟩ := ih hwt hok
+        have hcb : chunkBytes c = some d ∧ c.sizeLine d = d.length ∧ d ≠ [] := by
+          cases c with
+          | bytes b =>
+            simp [Chunk.data] at hd; subst hd
+            simp [Chunk.len] at hlen
+            exact ⟨rfl, rfl, hlen⟩
+          | str s =>
+            simp only [Chunk.data, encodeUtf8] at hd
+            split at hd
+            · simp at hd
+            · rename_i hs
+              simp at hd; subst hd
+              simp [Chunk.len] at hlen
+              refine ⟨by simp [chunkBytes, hs], rfl, ?_⟩
+              cases s with
+              | nil => exact absurd rfl hlen
+              | cons x u =>
+                simp only [utf8SP, List.flatMap_cons]
+                intro e
+                have : utf8Char x = [] := (List.append_eq_nil_iff.mp e).1
+                unfold utf8Char at this
+                repeat' split at this
+                all_goals simp at this
+          | buf b k =>
+            simp only [wellSized] at hwc; subst hwc
+            simp [Chunk.data] at hd; subst hd
+            simp [Chunk.len] at hlen
+            exact ⟨rfl, by simp [Chunk.sizeLine, Chunk.len], hlen⟩
+        obtain ⟨hc1, hc2, hc3⟩ := hcb
+        refine ⟨d :: ds, ?_, ?_, ?_⟩
+        · intro x hx; simp at hx; rcases hx with rfl | hx
+          · exact hc3
+          · exact h1 x hx
+        · simp [chunksPayload, hc1, h2]
+        · simp only [hlen, if_false, hd, h3, hc2]
+          cases chunked <;> simp [frameData]
+
+example : (sendChunks true [.bytes [1, 2], .str [], .str [233]]).written
+    = frameData [[1, 2], [0xC3, 0xA9]] := by decide
+
+/-- negation witness for the full round trip: `array('H', [1, 2, 3])` with `chunked=True` — the
+strict decoder rejects what was written -/
+theorem C11_wide_buffer_witness :
+    (sendChunks true [.buf [1, 0, 2, 0, 3, 0] 2]).err = none ∧
+    dechunk 100 ((sendChunks true [.buf [1, 0, 2, 0, 3, 0] 2]).written ++ lastChunk) = none := by
+  decide
+
+/-- exactly one framing: when the caller supplies no framing header, `request` adds at most one of
+`Transfer-Encoding: chunked` / `Content-Length: n`, and exactly one unless the body is absent, the
+method expects none and chunking was not requested -/
+theorem C11_exactly_one_framing (keys : List Str) (ch : Bool) (chunks : Option (List Chunk)) (cl : Option Nat)
+    (fr : Framing) (h : framing keys ch chunks cl = .ok fr)
+    (hk1 : keys.contains (lit "content-length") = false) (hk2 : keys.contains (lit "transfer-encoding") = false) :
+    (fr.chunked = true ∧ fr.lines = [(lit "Transfer-Encoding", lit "chunked")] ∧ (ch = true ∨ (cl = none ∧ chunks.isSome)))
+    ∨ (fr.chunked = false ∧ fr.lines = [] ∧ ch = false ∧ cl = none ∧ chunks = none)
+    ∨ (∃ n, fr.chunked = false ∧ fr.lines = [(lit "Content-Length", toDec n)] ∧ ch = false ∧ cl = some n) := by
+  have hte : putheader (lit "Transfer-Encoding") (lit "chunked") = .ok [(lit "Transfer-Encoding", lit "chunked")] := by
+    decide
+  have hcl : ∀ n, putheader (lit "Content-Length") (toDec n) = .ok [(lit "Content-Length", toDec n)] ∨
+      ∃ e, putheader (lit "Content-Length") (toDec n) = .error e := by
+    intro n
+    cases hp : putheader (lit "Content-Length") (toDec n) with
+    | error e => exact Or.inr ⟨e, rfl⟩
+    | ok l =>
+      left
+      unfold putheader at hp
+      split at hp
+      · obtain ⟨a, ha, e⟩ := map_ok hp
+        subst e
+        unfold hcPutheader at ha
+        split at ha
+        · simp at ha
+        · rename_i nn hnn
+          have : nn = lit "Content-Length" := by
+            have : encodeAscii (lit "Content-Length") = .ok (lit "Content-Length") := by decide
+            rw [this] at hnn; simp at hnn; exact hnn.symm
+          subst this
+          split at ha
+          · simp at ha
+          · split at ha
+            · simp at ha
+            · rename_i v hv
+              simp only [encodeLatin1] at hv
+              split at hv
+              · simp at hv; subst hv
+                split at ha
+                · simp at ha
+                · simp at ha; subst ha; rfl
+              · simp at hv
+      · split at hp <;> simp at hp
+        rename_i h1 h2
+        have hc : Gen.skippableHeaders.contains (lower (lit "Content-Length")) = false := by decide
+        rw [hc] at h2
+        simp at h2
+  unfold framing at h
+  split at h
+  · rename_i hch
+    simp only [hk2, Bool.not_false, if_true, hte, Except.map] at h
+    simp at h; subst h
+    exact Or.inl ⟨rfl, rfl, Or.inl hch⟩
+  · rename_i hch
+    simp only [hk1, hk2] at h
+    simp at h
+    split at h
+    · rename_i hcl0
+      split at h
+      · rename_i hsome
+        simp only [hte, Except.map] at h
+        simp at h; subst h
+        exact Or.inl ⟨rfl, rfl, Or.inr ⟨rfl, hsome⟩⟩
+      · rename_i hsome
+        simp at h; subst h
+        refine Or.inr (Or.inl ⟨rfl, rfl, by simpa using hch, rfl, ?_⟩)
+        cases chunks <;> simp_all
+    · rename_i n
+      rcases hcl n with hp | ⟨e, hp⟩
+      · simp only [hp, Except.map] at h
+        simp at h; subst h
+        exact Or.inr (Or.inr ⟨n, rfl, rfl, by simpa using hch, rfl⟩)
+      · simp [hp, Except.map] at h
+
+/-- body-less requests: unframed for the methods of `_METHODS_NOT_EXPECTING_BODY` (which contain
+GET / HEAD / DELETE / OPTIONS and none of POST / PUT / PATCH), `Content-Length: 0` otherwise;
+`chunked=True` is honoured in both cases -/
+theorem C11_bodyless_table (meth : Str) (bs : Nat) :
+    (∀ m ∈ [lit "GET", lit "HEAD", lit "DELETE", lit "OPTIONS"], Gen.methodsNotExpectingBody.contains m = true) ∧
+    (∀ m ∈ [lit "POST", lit "PUT", lit "PATCH"], Gen.methodsNotExpectingBody.contains m = false) ∧
+    (∃ cc, bodyToChunks .none meth bs = .ok cc ∧ cc.chunks = none ∧
+      cc.contentLength = (if Gen.methodsNotExpectingBody.contains (upper meth) then none else some 0)) ∧
+    (∃ fr, framing [] false none none = .ok fr ∧ fr.lines = [] ∧ fr.chunked = false) ∧
+    (∃ fr, framing [] false none (some 0) = .ok fr ∧ fr.lines = [(lit "Content-Length", [48])] ∧ fr.chunked = false) ∧
+    (∃ fr, framing [] true none none = .ok fr ∧ fr.lines = [(lit "Transfer-Encoding", lit "chunked")] ∧ fr.chunked = true) := by
+  refine ⟨by decide, by decide, ⟨_, rfl, rfl, rfl⟩, ⟨⟨false, []⟩, by decide, rfl, rfl⟩, ?_, ?_⟩
+  · exact ⟨⟨false, [(lit "Content-Length", [48])]⟩, by decide, rfl, rfl⟩
+  · exact ⟨⟨true, [(lit "Transfer-Encoding", lit "chunked")]⟩, by decide, rfl, rfl⟩
+
+/-! ## re-sending -/
+
+def payloadOf (a : Attempt) : Option (FrameKind × Bytes) := (strictParse a.wire).bind deframe
+
+def st0 (meth : Str) (body : Body) : HState := ⟨meth, [], body, .none, false⟩
+
+/-
+Full statement (Appendix E):
+  `(∀ a ∈ (sendHistory lvl cfg t ch hist st).attempts, ¬a.after303 → payload a = payload (first attempt))
+     ∨ (sendHistory …).result = .error .unrewindableBody`   for every body, level and history.
+It does NOT hold of the code as it stands; the four witnesses below are each a history whose call
+succeeds (or ends in a bare ValueError) while a re-sent body is empty.
+-/
+theorem C11_resend_oneshot_witness :
+    let r := sendHistory .pool c11cfg (lit "/p") false [.retryStatus, .ok] (st0 (lit "POST") (.iter [.bytes [97, 98]] true))
+    r.result = .ok () ∧ r.attempts.map payloadOf = [some (.chunked, [97, 98]), some (.chunked, [])] := by
+  decide +kernel
+
+theorem C11_resend_no_tell_witness :
+    let r := sendHistory .pool c11cfg (lit "/p") false [.redirectKeep, .ok]
+      (st0 (lit "PUT") (.file ⟨[1, 2, 3], 0, .ok, .absent, false⟩))
+    r.result = .ok () ∧ r.attempts.map payloadOf = [some (.chunked, [1, 2, 3]), some (.chunked, [])] := by
+  decide +kernel
+
+theorem C11_resend_manager_redirect_witness :
+    let r := sendHistory .manager c11cfg (lit "/p") false [.redirectKeep, .ok]
+      (st0 (lit "PUT") (.file ⟨[1, 2, 3], 0, .ok, .ok, false⟩))
+    r.result = .ok () ∧ r.attempts.map payloadOf = [some (.chunked, [1, 2, 3]), some (.chunked, [])] := by
+  decide +kernel
+
+/-- … while the same history at pool level re-sends the body identically -/
+example :
+    let r := sendHistory .pool c11cfg (lit "/p") false [.redirectKeep, .readErr, .ok]
+      (st0 (lit "PUT") (.file ⟨[1, 2, 3], 1, .ok, .ok, false⟩))
+    r.result = .ok () ∧ r.attempts.map payloadOf = [some (.chunked, [2, 3]), some (.chunked, [2, 3]), some (.chunked, [2, 3])] := by
+  decide +kernel
+
+theorem C11_resend_pool_303_witness :
+    let r := sendHistory .pool c11cfg (lit "/p") false [.redirect303, .ok]
+      (st0 (lit "POST") (.file ⟨[1, 2, 3], 0, .ok, .ok, false⟩))
+    r.result = .error .valueError ∧ r.attempts.length = 1 := by
+  decide +kernel
+
+/-- a file whose `tell()` fails is refused on the first re-send -/
+example :
+    (sendHistory .pool c11cfg (lit "/p") false [.retryStatus, .ok]
+      (st0 (lit "PUT") (.file ⟨[1, 2, 3], 0, .ok, .raises, false⟩))).result = .error .unrewindableBody := by
+  decide +kernel
+
 end U3.Props
